@@ -65,12 +65,12 @@ func extractContrib(c *Ctx, fname string, withPoly bool) *contribTable {
 	}
 	t.atomsOf = func(cell contribCell) map[string]absVal {
 		return map[string]absVal{
-			recv + ".fillRule":          intVal(cell.fr),
-			recv + ".clipType":          intVal(cell.ct),
-			ae + ".windCount":           intVal(cell.wc),
-			ae + ".windCount2":          intVal(cell.wc2),
-			"getPolyType(" + ae + ")":   intVal(cell.pt),
-			ae + ".localMin.PolyType":   intVal(cell.pt),
+			recv + ".fillRule":        intVal(cell.fr),
+			recv + ".clipType":        intVal(cell.ct),
+			ae + ".windCount":         intVal(cell.wc),
+			ae + ".windCount2":        intVal(cell.wc2),
+			"getPolyType(" + ae + ")": intVal(cell.pt),
+			ae + ".localMin.PolyType": intVal(cell.pt),
 		}
 	}
 	for _, fr := range fills {
@@ -345,14 +345,14 @@ func ruleOpenGuard(rule string) func(*Ctx) {
 					continue
 				}
 				atoms := map[string]absVal{
-					recv + ".hasOpenPaths": boolVal(true),
-					"isOpen(ae1)":          boolVal(true),
-					"isOpen(ae2)":          boolVal(false),
-					"isJoined(ae2)":        boolVal(false),
-					recv + ".fillRule":     intVal(fr.val),
-					recv + ".clipType":     intVal(enumByName(t.clips, "Intersection")),
+					recv + ".hasOpenPaths":  boolVal(true),
+					"isOpen(ae1)":           boolVal(true),
+					"isOpen(ae2)":           boolVal(false),
+					"isJoined(ae2)":         boolVal(false),
+					recv + ".fillRule":      intVal(fr.val),
+					recv + ".clipType":      intVal(enumByName(t.clips, "Intersection")),
 					"ae2.localMin.PolyType": intVal(enumByName(t.polys, "Clip")),
-					"ae2.windCount":        intVal(wc),
+					"ae2.windCount":         intVal(wc),
 				}
 				ex := &explorer{c: c, f: f, atoms: atoms, canon: canonParams(f, recv, "ae1", "ae2", "pt")}
 				outs := ex.explore(nil)
